@@ -6,6 +6,7 @@ package main
 // under the reference names; the struct's methods count as code of the machine.
 
 import (
+	"go/ast"
 	"go/types"
 	"strings"
 )
@@ -35,7 +36,16 @@ func (c *Ctx) vmAliasTable() *vmAliases {
 	out := &vmAliases{holders: map[string]bool{}, prefix: map[string]string{}}
 	have := map[string]bool{}
 	for i := 0; i < vst.NumFields(); i++ {
-		have[vst.Field(i).Name()] = true
+		// a reference field is "still there" when it still is the array or the counter (a holder struct may well
+		// be called `stack` itself)
+		switch u := vst.Field(i).Type().Underlying().(type) {
+		case *types.Array:
+			have[vst.Field(i).Name()] = true
+		case *types.Basic:
+			if u.Kind() == types.Int {
+				have[vst.Field(i).Name()] = true
+			}
+		}
 	}
 	for i := 0; i < vst.NumFields(); i++ {
 		f := vst.Field(i)
@@ -44,11 +54,13 @@ func (c *Ctx) vmAliasTable() *vmAliases {
 			continue
 		}
 		st, ok := n.Underlying().(*types.Struct)
-		if !ok || st.NumFields() != 2 {
+		if !ok {
 			continue
 		}
 		var arr, cnt *types.Var
+		var ints []*types.Var
 		kind := ""
+		narr := 0
 		for j := 0; j < st.NumFields(); j++ {
 			g := st.Field(j)
 			switch u := g.Type().Underlying().(type) {
@@ -56,17 +68,62 @@ func (c *Ctx) vmAliasTable() *vmAliases {
 				switch {
 				case isNamed(u.Elem(), bclPath, "Block"):
 					arr, kind = g, "block"
+					narr++
 				case isNamed(u.Elem(), bclPath, "value"):
 					arr, kind = g, "value"
+					narr++
 				}
 			case *types.Basic:
 				if u.Kind() == types.Int {
-					cnt = g
+					ints = append(ints, g)
 				}
 			}
 		}
-		if arr == nil || cnt == nil {
+		if arr == nil || narr != 1 || len(ints) == 0 {
 			continue
+		}
+		if len(ints) == 1 {
+			cnt = ints[0]
+		} else {
+			// several integers beside the array (a high-water mark, say): the counter is the one the array is
+			// indexed with in the struct's own methods
+			used := map[*types.Var]bool{}
+			for _, it := range c.sortedDecls() {
+				if it.fd.Body == nil || it.fd.Recv == nil {
+					continue
+				}
+				if rn, isN := derefType(c.typeOfRecv(it.fd)).(*types.Named); !isN || rn.Obj() != n.Obj() {
+					continue
+				}
+				ast.Inspect(it.fd.Body, func(x ast.Node) bool {
+					ix, isIx := x.(*ast.IndexExpr)
+					if !isIx {
+						return true
+					}
+					if sel, isSel := stripParens(ix.X).(*ast.SelectorExpr); !isSel || c.objOf(sel) != types.Object(arr) {
+						return true
+					}
+					ast.Inspect(ix.Index, func(y ast.Node) bool {
+						if sel, isSel := y.(*ast.SelectorExpr); isSel {
+							if fv, isVar := c.objOf(sel).(*types.Var); isVar {
+								for _, g := range ints {
+									if fv == g {
+										used[g] = true
+									}
+								}
+							}
+						}
+						return true
+					})
+					return true
+				})
+			}
+			if len(used) != 1 {
+				continue
+			}
+			for g := range used {
+				cnt = g
+			}
 		}
 		refArr, refCnt := "blockStack", "blockTos"
 		if kind == "value" {
@@ -80,6 +137,12 @@ func (c *Ctx) vmAliasTable() *vmAliases {
 		for _, base := range []string{"<" + tn + ">.", "<vm>." + f.Name() + "."} {
 			out.prefix[base+arr.Name()] = "<vm>." + refArr
 			out.prefix[base+cnt.Name()] = "<vm>." + refCnt
+		}
+		// the holder's other fields (an overflow flag, a high-water mark) under one spelling
+		for j := 0; j < st.NumFields(); j++ {
+			if g := st.Field(j); g != arr && g != cnt {
+				out.prefix["<"+tn+">."+g.Name()] = "<vm>." + f.Name() + "." + g.Name()
+			}
 		}
 		c.AliasNotes = append(c.AliasNotes, "vm."+f.Name()+" ("+tn+") holds the machine's "+refArr+"/"+refCnt+" as "+arr.Name()+"/"+cnt.Name())
 	}
